@@ -28,6 +28,10 @@ CONFIGS = [
     ("it2_mutant", "MC_Flurry", "MC_it2_mutant.cfg", {"C07"}, "IterWeak", "quick", []),
     ("clr1", "MC_Flurry", "MC_clr1.cfg", {"C05", "C10"}, "ok", "quick", ["ClrReval", "XStoreFwd"]),
     ("clr2", "MC_Flurry", "MC_clr2.cfg", {"C05", "C07"}, "ok", "quick", ["ClrReval", "ItYield"]),
+    ("sizing", "Sizing", "Sizing.cfg", {"C14", "C10"}, "ok", "quick", []),
+    ("reclaim", "Reclaim", "MC_Reclaim.cfg", {"C03", "C04"}, "ok", "quick", []),
+    ("reclaim_unprotected", "Reclaim", "MC_Reclaim_unprotected.cfg", {"C03"}, "NoUseAfterFree", "quick", []),
+    ("reclaim_retirefirst", "Reclaim", "MC_Reclaim_retirefirst.cfg", {"C03"}, "ReachableLive", "quick", []),
     ("treelock", "MC_TreeBinLock", "MC_TreeBinLock.cfg", {"C11", "C12", "C01"}, "ok", "quick", ["ContPark", "FindUnpark", "SpuriousWake"]),
     ("treelock_live", "MC_TreeBinLock", "MC_TreeBinLock_live.cfg", {"C11"}, "ok", "quick", []),
     ("treelock_mutant", "MC_TreeBinLock", "MC_TreeBinLock_mutant.cfg", {"C11"}, "NoDeadlock", "quick", []),
